@@ -13,9 +13,6 @@ fn repr_add_small_large<const B: Word>(
         lhs.exponent <= rhs.exponent,
         add_fits(B as int, self.precision, lhs.significand.v(), rhs.significand.v()),
         add_ranges(B as int, self.precision, lhs.significand.v(), lhs.exponent as int, rhs.significand.v(), rhs.exponent as int),
-        // KNOWN DEFECT (see add_defect_region): excluded, delete this line once the sentinel is made smaller than 1/2
-        !add_defect_region(R::md(), B as int, self.precision, rhs.significand.v(), rhs.exponent as int,
-            true_sub(lhs.significand.v(), rhs_sign, rhs.significand.v()), lhs.significand.v(), lhs.exponent as int),
     ensures
         // the SAME statement as for repr_add_large_small: the mirror helpers treat `rhs_sign` identically
         add_post(R::md(), B as int, self.precision, lhs.significand.v(), lhs.exponent as int, rhs_sign,
@@ -56,7 +53,7 @@ fn repr_add_small_large<const B: Word>(
             let low_prec = if rdigits >= rnd_precision {
                 2
             } else {
-                (rnd_precision - rdigits) + 1
+                (rnd_precision - rdigits) + 2
             };
             low = (lhs.significand.signum(), low_prec);
             /*@ proof {
@@ -144,7 +141,7 @@ fn repr_add_small_large<const B: Word>(
                     // the sentinel rounds like the true sum
                     let rd = ndigits(b, Sr) as int;
                     assert(ndigits(b, sr) == ndigits(b, Sr)) by { lemma_ndigits_neg(b, Sr); }
-                    assert(j1 == (if rd < rp { 1int } else { 2int }));
+                    assert(j1 == 2);
                     lemma_ipow_mono(b, ndigits(b, Sl), ldigits_est as nat);
                     lemma_ipow_small(b);
                     lemma_far_result::<B>(R::md(), b, sr, low.0.v(), Sl, k as nat, j1 as nat, (Er - El) as nat, ldigits_est as nat, Er - k, ret);
